@@ -3,7 +3,12 @@ import PolyVerif.Base.Str
 Model of the GenBank PARSER of poly/io/genbank (property C01), statement by statement, as the
 code is after the `fix:` commits 28c7350 (` \d+ \w{2} `), a5c3eef (qualifier split at the first
 '=', only the leading '/' and the enclosing quotes stripped), 29ddb6d (a location continues only
-on lines blank up to column 22) and 87039ef (ParseMulti keeps a last record without final newline):
+on lines blank up to column 22), 87039ef (ParseMulti keeps a last record without final newline),
+5a12a0c (the line cursor moves past all lines of a location), c94d396 + 9a46c6b (a quoted value continues on
+a line beginning with '/' while its quote is open), 49c2e81 (sub-keywords recognised by column),
+bca7ebf (REFERENCE line joined with its continuation lines), 1a072ef (no first-word break in
+getReference) and d6becc3 (LOCUS fields searched after
+the name; the longest molecule type wins):
 
   genbank.Parse       ↦ `parse`         genbank.ParseMulti ↦ `parseMulti`
   genbank.ParseFlat   ↦ `parseFlat`     (Read / ReadMulti / ReadFlat / ReadFlatGz = the same after
@@ -178,12 +183,21 @@ def firstContained (s : Str) : List Str → Str
   | [] => []
   | x :: xs => if contains s x then x else firstContained s xs
 
+/-- `for _, x := range list { match := Find(x); if len(match) > len(field) { field = match } }` -/
+def longestContained (s : Str) : Str → List Str → Str
+  | cur, [] => cur
+  | cur, x :: xs =>
+    let m : Str := if contains s x then x else []
+    longestContained s (if m.length > cur.length then m else cur) xs
+
 def parseLocus (locusString : Str) : Outcome Locus :=
   let locusSplit := split (trimSpace locusString) c!" "
   let filtered := locusSplit.filter (· ≠ [])
   match filtered[1]? with
-  | none => .panic                                   -- filteredLocusSplit[1]
+  | none => .panic                                   -- filteredLocusSplit[1]  (then [2:] cannot fail)
   | some name =>
+    -- locusString = " " + strings.Join(filteredLocusSplit[2:], " ") + " "
+    let locusString := c!" " ++ join c!" " (filtered.drop 2) ++ c!" "
     let bp := findBasePair locusString
     let sp := split (trimSpace bp) c!" "
     let lenCoding : Str × Str :=
@@ -191,7 +205,7 @@ def parseLocus (locusString : Str) : Outcome Locus :=
     .ok { name := name
           seqLength := lenCoding.1
           coding := lenCoding.2
-          molType := firstContained locusString genBankMoleculeTypes
+          molType := longestContained locusString [] genBankMoleculeTypes
           circular := contains locusString c!" circular "
           linear := contains locusString c!" linear "
           division := firstContained locusString genbankDivisions
@@ -221,7 +235,10 @@ def sourceLoop (source : Str) : List Str → Outcome (Str × Str)
   | l :: ls =>
     let headString := headOf (split (trimSpace l) c!" ")
     (Str.at l 0).bind fun c0 =>                       -- string(subLine[0])
-      if c0 = ' ' ∧ headString ≠ c!"ORGANISM" then
+      -- subLine[0] == " " && !(quickSubMetaCheck(subLine) && headString == "ORGANISM")
+      (if c0 = ' ' then (quickSubMetaCheck l).bind fun sm => .ok (!(sm && headString == c!"ORGANISM"))
+       else .ok false).bind fun cont =>
+      if cont then
         sourceLoop (trimSpace (trimSpace source ++ c!" " ++ trimSpace l)) ls
       else
         (joinSubLines (split (trimSpace l) c!" ") ls).bind fun organism => .ok (source, organism)
@@ -234,7 +251,10 @@ def refLoop (r : Reference) : List Str → Outcome Reference
   | l :: ls =>
     let fs := split (trimSpace l) c!" "
     let headString := headOf fs
-    if topLevelFeatureCheck headString then .ok r
+    (quickMetaCheck l).bind fun m =>
+    if m then .ok r else
+    (quickSubMetaCheck l).bind fun sm =>
+    if !sm then refLoop r ls
     else if headString = c!"AUTHORS" then (joinSubLines fs ls).bind fun v => refLoop { r with authors := v } ls
     else if headString = c!"TITLE" then (joinSubLines fs ls).bind fun v => refLoop { r with title := v } ls
     else if headString = c!"JOURNAL" then (joinSubLines fs ls).bind fun v => refLoop { r with journal := v } ls
@@ -243,7 +263,7 @@ def refLoop (r : Reference) : List Str → Outcome Reference
     else refLoop r ls
 
 def getReference (splitLine subLines : List Str) : Outcome Reference :=
-  let base := trimSpace (join c!" " (splitLine.drop 1))
+  (joinSubLines splitLine subLines).bind fun base =>
   let bs := split base c!" "
   let r : Reference := { index := headOf bs }
   let r := if base.length > 1 then { r with range := trimSpace (join c!" " (bs.drop 1)) } else r
@@ -272,7 +292,14 @@ def locLoop (lines : List Str) (lineIndex : Nat) : Nat → Nat → Str → Outco
 def subLoop (lines : List Str) (isTranslation : Bool) : Nat → Str → Nat → Str → Outcome (Str × Nat × Str)
   | 0, _, _, _ => .panic                              -- not reached
   | f + 1, qualifier, lineIndex, line =>
-    (quickQualifierSubLineCheck line).bind fun b =>
+    (quickQualifierSubLineCheck line).bind fun sub =>
+    -- trimmedQualifier := strings.TrimSpace(qualifier)
+    -- unclosedQuote := Contains(trimmedQualifier, "\"") && !(Count(trimmedQualifier, "\"") >= 2 && HasSuffix(trimmedQualifier, "\""))
+    -- if !sub && !(unclosedQuote && quickQualifierCheck(line)) { break }
+    let tq := trimSpace qualifier
+    let unclosedQuote := List.elem '"' tq && !(tq.count '"' ≥ 2 && hasSuffix tq c!"\"")
+    (if sub then .ok true
+     else if unclosedQuote then quickQualifierCheck line else .ok false).bind fun b =>
       if !b then .ok (qualifier, lineIndex, line) else
       let qualifier := if !isTranslation then qualifier ++ c!" " ++ trimSpace line else qualifier ++ trimSpace line
       (lineAt lines (lineIndex + 1)).bind fun line' =>
@@ -312,9 +339,9 @@ def featLoop (lines : List Str) : Nat → List Feature → Nat → Outcome (List
           let type := trimSpace (headOf splitLine)
           let loc0 := trimSpace (splitLine.getLastD [])
           (locLoop lines lineIndex (lines.length + 1) 0 loc0).bind fun (loc, nextLineNum) =>
-            -- lineIndex++ ; line = lines[lineIndex+nextLineNum-1]
-            (lineAt lines (lineIndex + 1 + nextLineNum - 1)).bind fun line' =>
-              (qualLoop lines (lines.length + 1) [] (lineIndex + 1) line').bind fun (attrs, lineIndex') =>
+            -- lineIndex += nextLineNum ; line = lines[lineIndex]
+            (lineAt lines (lineIndex + nextLineNum)).bind fun line' =>
+              (qualLoop lines (lines.length + 1) [] (lineIndex + nextLineNum) line').bind fun (attrs, lineIndex') =>
                 featLoop lines f (features ++ [{ type := type, gbkLoc := loc, attrs := attrs }]) lineIndex'
 
 def getFeatures (lines : List Str) : Outcome (List Feature) :=
